@@ -175,6 +175,11 @@ class AsyncSocket(base_socket.BaseSocket):
                 pkt = await websocket_wait()
             except OSError:  # pragma: no cover
                 return
+            if self.upgraded:
+                # another WebSocket completed the upgrade in the meantime
+                self.server.logger.info(
+                    '%s: Failed websocket upgrade, already upgraded', self.sid)
+                return
             decoded_pkt = packet.Packet(encoded_packet=pkt)
             if decoded_pkt.packet_type != packet.PING or \
                     decoded_pkt.data != 'probe':
@@ -189,6 +194,10 @@ class AsyncSocket(base_socket.BaseSocket):
                 pkt = await websocket_wait()
             except OSError:  # pragma: no cover
                 self.upgrading = False
+                return
+            if self.upgraded:
+                self.server.logger.info(
+                    '%s: Failed websocket upgrade, already upgraded', self.sid)
                 return
             decoded_pkt = packet.Packet(encoded_packet=pkt)
             if decoded_pkt.packet_type != packet.UPGRADE:
